@@ -380,6 +380,26 @@ Definition obs_add_header (st : status) (m0 : hm) (probes : list (list N)) : tr 
   | None => Nd [Nn 0]
   | Some h => Nd [Nn 1; obs_read h probes]
   end.
+(* the receiving side of an error status: the peer reads the header map (trailers, or the head
+   of a trailers-only response) with Status::from_header_map - this is what client::Grpc does
+   in create_response and Streaming in infer_grpc_status - and looks at status.metadata() *)
+Definition status_received (st : status) (m0 : hm) : option status :=
+  match add_header st m0 with
+  | Some h => from_header_map h
+  | None => None
+  end.
+Definition obs_status_received (st : status) (m0 : hm) (probes : list (list N)) : tr :=
+  oopt (fun st' => Nd [status_obs st'; obs_read (into_headers (st_md st')) probes]) (status_received st m0).
+(* the client's view of a trailers-only error (head built by Status::into_http) *)
+(* premise (M1): the status metadata has no entry named grpc-encoding - client::Grpc consults
+   that header of the response head before it looks for a status (create_response, C05), so a
+   trailers-only response carrying one is outside this model: marked, not compared *)
+Definition obs_client_error_trailers_only (st : status) (probes : list (list N)) : tr :=
+  if hm_contains (st_md st) hdr_grpc_encoding then Nd [Nn 5]
+  else obs_status_received st (hm_insert [] hdr_content_type val_app_grpc) probes.
+(* ... and of an error status in the trailers after messages *)
+Definition obs_client_error_trailers (st : status) (probes : list (list N)) : tr :=
+  obs_status_received st [] probes.
 Definition obs_request_headers (sanitize_yes : bool) (md : metadata) : tr :=
   hm_canon (request_headers sanitize_yes md).
 
